@@ -286,7 +286,7 @@ func sanitize(s string) string {
 // loadOverlay reads /verif/harness/overlay/<pkgdir>/<file>.go and maps them into /repo/<pkgdir>/.
 func loadOverlay() map[string][]byte {
 	ov := map[string][]byte{}
-	root := filepath.Join(harnessDir, "overlay")
+	root := filepath.Join(harnessDir, "_overlay")
 	filepath.Walk(root, func(path string, info os.FileInfo, err error) error {
 		if err != nil || info.IsDir() || !strings.HasSuffix(path, ".go") {
 			return nil
